@@ -22,7 +22,9 @@ META = {
         'every site that makes a node id from user text upper-cases the '
         'case-insensitive parts; (quote) the sheet-id writer quotes a name '
         'whenever the reader\'s unquoted alternative would not match it and '
-        're-doubles the quote it un-doubled.'),
+        're-doubles the quote it un-doubled; (extlink) the table behind '
+        '[n]Sheet!A1 is keyed by the 1-based position in the complete list of '
+        'external links - numbering happens before any filtering.'),
     'not_decided': (
         'That the regexes accept exactly Excel\'s spellings, relative-offset '
         'arithmetic and bijectivity of the column conversion (value-level).'),
@@ -500,6 +502,119 @@ def rule_quote(ctx):
     return rr
 
 
+def rule_extlink(ctx):
+    """[n]Sheet!A1 names the n-th external link of the workbook: the table the
+    resolver consults must be keyed by the 1-based position in the *complete*
+    list of links."""
+    from ..util import assigned_value
+    rr = RuleResult('C04', 'C04.extlink', 'DEP',
+                    'external-link indices are positions in the complete link '
+                    'list, 1-based', floor=2)
+    p = ctx.project
+    f = p.func('formulas/excel/__init__.py', 'ExcelModel.add_book')
+    stores = [n for n in own_nodes(f) if isinstance(n, ast.Assign) and any(
+        isinstance(t, ast.Subscript) and isinstance(t.slice, ast.Constant)
+        and t.slice.value == 'external_links' for t in n.targets)]
+    enums = [n for n in own_nodes(f) if isinstance(n, ast.Call) and isinstance(
+        n.func, ast.Name) and n.func.id == 'enumerate' and n.args]
+    if not stores or not enums:
+        raise AnalysisError('add_book: construction of the external_links '
+                            'table not recognised')
+
+    def classify(e, depth=0):
+        """'full' | 'filtered' | 'unknown' for the sequence e enumerates."""
+        if depth > 5:
+            return 'unknown', e
+        if isinstance(e, ast.Attribute) and e.attr == '_external_links':
+            return 'full', e
+        if isinstance(e, ast.Name):
+            vals = assigned_value(f, e.id)
+            if len(vals) == 1:
+                return classify(vals[0], depth + 1)
+            return 'unknown', e
+        if isinstance(e, ast.Call) and isinstance(e.func, ast.Name):
+            if e.func.id in ('list', 'tuple', 'iter') and e.args:
+                return classify(e.args[0], depth + 1)
+            if e.func.id == 'map' and len(e.args) == 2:
+                return classify(e.args[1], depth + 1)
+            if e.func.id == 'filter':
+                return 'filtered', e
+        if isinstance(e, (ast.GeneratorExp, ast.ListComp)) and \
+                len(e.generators) == 1:
+            if e.generators[0].ifs:
+                return 'filtered', e
+            return classify(e.generators[0].iter, depth + 1)
+        if isinstance(e, ast.Subscript) and isinstance(e.slice, ast.Slice):
+            return 'filtered', e
+        return 'unknown', e
+
+    for en in enums:
+        rr.instances += 1
+        kind, where = classify(en.args[0])
+        if kind == 'unknown':
+            raise AnalysisError('add_book: cannot tell what `%s` enumerates'
+                                % norm_src(en))
+        if kind == 'filtered':
+            rr.fail(key_of(f, 'link index counted after filtering'),
+                    'add_book numbers the external links with `%s`, i.e. '
+                    'after `%s` has removed entries: the index no longer is '
+                    'the position in the workbook\'s link list, so [n]Sheet!A1 '
+                    'resolves to a different workbook than Excel\'s n-th link '
+                    'whenever a skipped link precedes it' % (
+                        norm_src(en)[:80], norm_src(where)[:60]),
+                    file=f.module.rel, function=f.qualname, line=en.lineno)
+        else:
+            rr.ok('link indices enumerate the complete `_external_links` list '
+                  '(filtering happens after numbering)', '%s:%d' % (
+                      f.module.rel, en.lineno))
+        # 1-based
+        rr.instances += 1
+        start = 0
+        if len(en.args) > 1 and isinstance(en.args[1], ast.Constant):
+            start = en.args[1].value
+        elif kwarg(en, 'start') is not None and isinstance(
+                kwarg(en, 'start'), ast.Constant):
+            start = kwarg(en, 'start').value
+        elif len(en.args) > 1 or kwarg(en, 'start') is not None:
+            raise AnalysisError('add_book: enumerate start not constant')
+        # the loop variable bound to the index
+        ivar = None
+        for n in own_nodes(f):
+            if isinstance(n, (ast.comprehension, ast.For)) and n.iter is en \
+                    and isinstance(n.target, ast.Tuple) and isinstance(
+                    n.target.elts[0], ast.Name):
+                ivar = n.target.elts[0].id
+        if ivar is None:
+            raise AnalysisError('add_book: index variable of enumerate not '
+                                'found')
+        offs = set()
+        for n in own_nodes(f):
+            if isinstance(n, ast.Call) and isinstance(n.func, ast.Name) and \
+                    n.func.id == 'str' and n.args:
+                a = n.args[0]
+                if isinstance(a, ast.Name) and a.id == ivar:
+                    offs.add(0)
+                elif isinstance(a, ast.BinOp) and isinstance(a.op, ast.Add) \
+                        and isinstance(a.left, ast.Name) and a.left.id == ivar \
+                        and isinstance(a.right, ast.Constant):
+                    offs.add(a.right.value)
+                elif ivar in {x.id for x in ast.walk(a)
+                              if isinstance(x, ast.Name)}:
+                    offs.add(None)
+        if offs == {1 - start}:
+            rr.ok('link keys are str(position), 1-based', f.module.rel)
+        elif not offs or None in offs:
+            raise AnalysisError('add_book: key expression of the link table '
+                                'not recognised')
+        else:
+            rr.fail(key_of(f, 'link index not 1-based'),
+                    'add_book keys the link table with position + %s '
+                    '(enumerate start %s): Excel\'s [n] is 1-based' % (
+                        sorted(offs), start), file=f.module.rel,
+                    function=f.qualname, line=en.lineno)
+    return rr
+
+
 def run(ctx):
     return [rule_limits(ctx), rule_groups(ctx), rule_fast(ctx), rule_case(ctx),
-            rule_quote(ctx)]
+            rule_quote(ctx), rule_extlink(ctx)]
